@@ -176,6 +176,12 @@ impl OpReadState for Unverified {}
     }
 //@ end
 
+#[verifier::external_body] pub struct ChangeOp { _p: () }
+pub enum ReadChangeOpError { CounterTooLarge, Other }
+pub struct Verified;
+impl OpReadState for Verified {}
+impl Clone for Verified { fn clone(&self) -> Self { Verified } }
+
 /// storage/change.rs: inside it `ParseError` is the change error type, `parse::ParseError` the parser's
 pub mod change {
 use vstd::prelude::*;
@@ -245,6 +251,24 @@ impl<'a> Change<'a, Unverified> {
             let k = lebk(i_msg.bytes@);
             assert(forall|m: int| 0 <= m <= i_msg.bytes.len() - k ==> #[trigger] i_msg.bytes@.subrange(k, i_msg.bytes.len() as int).subrange(0, m) =~= i_msg.bytes@.subrange(k, k + m));
         }
+//@ end
+
+    /// trusted wrapper for `self.iter_ops()` (an `impl Iterator` over the op columns): the decoded ops, or the first error
+    #[verifier::external_body]
+    pub fn vf_ops(&self) -> (r: Vec<Result<ChangeOp, ReadChangeOpError>>) ensures r.len() < usize::MAX { unimplemented!() }
+
+//@ fn rust/automerge/src/storage/change.rs | impl<'a> Change<'a, Unverified> | verify_ops
+//@   ret r
+//@   subst /self\.iter_ops\(\)/ => self.vf_ops()
+//@   spec
+        requires forall|o: ChangeOp| #[trigger] f.requires((o,)),
+        ensures
+            // C15 / C37: a verified change has EVERY op counter (start_op .. start_op + num_ops - 1) inside the u32 range
+            // of an op id -- what Automerge::import_ops relies on when it builds OpId::new(start_op + i, ..)
+            r matches Ok(c) ==> c.start_op.get() + (if c.num_ops == 0 { 0int } else { c.num_ops - 1 }) <= u32::MAX
+                && c.start_op == self.start_op && c.seq == self.seq && c.timestamp == self.timestamp && c.header == self.header,
+//@   loop 1 iter it
+            invariant num_ops == it.index@, it.seq().len() < usize::MAX, forall|o: ChangeOp| #[trigger] f.requires((o,)),
 //@ end
 }
 }
